@@ -825,7 +825,9 @@ def _r19_4(c, R, spec):
     if have_d and have_p:
         bad = []
         for co in (coord("org.g", "a", "1.0"), coord("org.g", "a", "1.0", ty="war"), coord("org.g", "a", "1.0", "sources", "war"),
-                   coord("org.g", "a", "1.0", "tests", "test-jar")):
+                   coord("org.g", "a", "1.0", "tests", "test-jar"),
+                   # a present-but-empty classifier is a value FromStr produces (`g:a:t::v`): printing must keep its (empty) segment
+                   coord("org.g", "a", "1.0", "", "war")):
             text = show_coord(co)
             back = parse(text) if isinstance(text, str) else None
             if text is None or back is None:
